@@ -270,3 +270,67 @@ func short(ids []string) []string {
 	}
 	return out
 }
+
+// permittedButRefused counts commands a strict compare-and-swap server would
+// have applied (old equals the stored value at that point of the sequence, new
+// object present) but that were answered ng. Observation only: the statement is
+// a safety property; the counter shows whether a repair over-refuses.
+func permittedButRefused(cs *Case, o *Outcome) (n int, first string) {
+	if !o.Report.Present || o.Report.Unpack != "ok" && len(o.Report.Lines) == 0 || o.Report.Malformed != "" {
+		return 0, ""
+	}
+	byName := map[string][]int{}
+	for i, c := range cs.Cmds {
+		byName[c.Name] = append(byName[c.Name], i)
+	}
+	linesBy := map[string][]StatusLine{}
+	for _, l := range o.Report.Lines {
+		linesBy[l.Name] = append(linesBy[l.Name], l)
+	}
+	state := map[string]string{}
+	for k, v := range cs.Init {
+		state[k] = v
+	}
+	pos := map[string]int{}
+	for i, c := range cs.Cmds {
+		cur, exists := state[c.Name]
+		act := c.Action()
+		ok := false
+		switch act {
+		case "create":
+			ok = !exists && o.Exists[c.New]
+		case "update":
+			ok = exists && cur == c.Old && o.Exists[c.New]
+		case "delete":
+			ok = exists && cur == c.Old
+		}
+		k := pos[c.Name]
+		pos[c.Name]++
+		if len(linesBy[c.Name]) != len(byName[c.Name]) {
+			// collapsed report: cannot tell which command a line belongs to
+			if ok {
+				if act == "delete" {
+					delete(state, c.Name)
+				} else {
+					state[c.Name] = c.New
+				}
+			}
+			continue
+		}
+		line := linesBy[c.Name][k]
+		if ok && !line.OK {
+			n++
+			if first == "" {
+				first = fmt.Sprintf("cmd%d %s %s: ng %s", i, act, c.Name, line.Msg)
+			}
+		}
+		if line.OK { // follow what the server says it did
+			if act == "delete" {
+				delete(state, c.Name)
+			} else {
+				state[c.Name] = c.New
+			}
+		}
+	}
+	return n, first
+}
